@@ -141,6 +141,57 @@ fn cross_corpus() -> Vec<Vec<u8>> {
     v
 }
 
+/// string-typed fields (SNI names, ALPN protocol names) filled with multi-byte UTF-8 sequences at
+/// every alignment and every length 0..=600: formatting code that slices or measures text must
+/// hold for these too
+fn utf8_corpus() -> Vec<Vec<u8>> {
+    let mut v = Vec::new();
+    let pats: [&[u8]; 4] = ["\u{e9}".as_bytes(), "\u{20ac}".as_bytes(), "\u{1d11e}".as_bytes(), &[0xc3]];
+    for len in 0..=600usize {
+        for (pi, pat) in pats.iter().enumerate() {
+            for shift in 0..pat.len().max(1) {
+                if len % 3 != (pi + shift) % 3 && !(250..=260).contains(&len) && !(120..=130).contains(&len) && !(508..=516).contains(&len) {
+                    continue;
+                }
+                let mut name: Vec<u8> = std::iter::repeat(b'a').take(shift.min(len)).collect();
+                while name.len() < len {
+                    for &b in pat.iter() {
+                        if name.len() < len {
+                            name.push(b);
+                        }
+                    }
+                }
+                // SNI with this host name
+                v.push(
+                    cat::ext(0, |w| {
+                        w.block(2, "l", |w| {
+                            w.u8(0);
+                            w.block(2, "n", |w| {
+                                w.bytes(&name);
+                            });
+                        });
+                    })
+                    .buf,
+                );
+                // ALPN with this protocol name (<= 255 bytes)
+                if len <= 255 {
+                    v.push(
+                        cat::ext(16, |w| {
+                            w.block(2, "l", |w| {
+                                w.block(1, "p", |w| {
+                                    w.bytes(&name);
+                                });
+                            });
+                        })
+                        .buf,
+                    );
+                }
+            }
+        }
+    }
+    v
+}
+
 /// the densest inputs at and beyond the record cap
 fn large_inputs() -> Vec<Vec<u8>> {
     let mut v = Vec::new();
@@ -256,7 +307,28 @@ fn main() {
         f
     };
     let corpora: std::collections::HashMap<&str, Corpus> = families.iter().map(|f| (*f, corpus(f, thorough))).collect();
-    let cross = cross_corpus();
+    let mut cross = cross_corpus();
+    let utf8 = utf8_corpus();
+    let nutf8 = utf8.len();
+    // as extensions, as an extension list, and inside a ClientHello record
+    for e in &utf8 {
+        let mut ch = cat::hs(1, |w| {
+            w.u16(0x0303);
+            w.fill(32, 1);
+            w.u8(0).u16(2).u16(0x1301).u8(1).u8(0);
+            w.block(2, "ext", |w| {
+                w.bytes(e);
+            });
+        });
+        if ch.buf.len() < 16000 {
+            let r = cat::record(0x16, 0x0303, |w| {
+                w.append(&ch);
+            });
+            ch = r;
+        }
+        cross.push(ch.buf);
+    }
+    cross.extend(utf8);
     let large = large_inputs();
     let mut items: Vec<Item> = Vec::new();
     for (ei, e) in ents.iter().enumerate() {
@@ -458,10 +530,11 @@ fn main() {
     cov.insert("pub_parse_fns_without_entry".into(), json!(missing));
     cov.insert("defragmenter_states".into(), json!(hist_states));
     cov.insert("defragmenter_transitions".into(), json!(hist_trans));
+    cov.insert("utf8_string_field_inputs".into(), json!(nutf8));
     cov.insert("heap_bound".into(), json!(format!("{} + {} x input length (bytes), parse + Debug formatting, per call", HEAP_BASE, HEAP_PER_BYTE)));
     cov.insert("watchdog_limit_s".into(), json!(limit.as_secs()));
     cov.insert("rule".into(), json!(format!(
-        "every one of {} entry points (all pub fn parse_* / tls_parser* plus the derived Parse impls; explicit len / header arguments crossed over their boundary domains) on: its family's catalogue with every combination of <= {} deviations; every string of bounded length over the family's positional alphabet; all byte strings of length <= 2 over the full alphabet (<= 3 for five main parsers in the thorough tier); the undeviated encodings of every other family; 51 inputs of 16640 / 16641 / 65535 bytes made of the densest message kinds. Every Ok value is formatted with {{:?}} and {{:#?}}. Plus every transition of the defragmenter exploration (S0, S1, S2). Built with overflow-checks and debug-assertions. Oracle: no unwinding, watchdog, peak heap bound. Non-trivial: not (Incomplete on an input of <= 4 bytes)",
+        "every one of {} entry points (all pub fn parse_* / tls_parser* plus the derived Parse impls; explicit len / header arguments crossed over their boundary domains) on: its family's catalogue with every combination of <= {} deviations; every string of bounded length over the family's positional alphabet; all byte strings of length <= 2 over the full alphabet (<= 3 for five main parsers in the thorough tier); the undeviated encodings of every other family; SNI / ALPN extensions (alone and inside a ClientHello record) whose names are multi-byte UTF-8 sequences (2-, 3-, 4-byte and a dangling lead byte) at every alignment and every length 0..=600; 51 inputs of 16640 / 16641 / 65535 bytes made of the densest message kinds. Every Ok value is formatted with {{:?}} and {{:#?}}. Plus every transition of the defragmenter exploration (S0, S1, S2). Built with overflow-checks and debug-assertions. Oracle: no unwinding, watchdog, peak heap bound. Non-trivial: not (Incomplete on an input of <= 4 bytes)",
         ents.len(), d)));
     if !missing.is_empty() {
         println!("note: pub parse functions without a registry entry: {:?}", missing);
